@@ -89,4 +89,20 @@ Proof.
   repeat (destruct Hin as [<-|Hin]; [intros Ho; jmp_tac; symmetry; cond_tac; rewrite ?M32, ?M64; reflexivity|]).
   destruct Hin.
 Qed.
+
+(** whatever the comparison yields, these arms only choose between the two successors *)
+Lemma jmp_imm64_shape o : In o [0x15; 0x25; 0x35; 0x55; 0xa5; 0xb5] ->
+  exists c : bool,
+  gen_interp_arm o E i (cast USZ (dst i)) (cast USZ (src i)) reg next fidx stacks m
+  = Ok (Next (reg, (if c then next + off i else next), fidx, stacks, m)).
+Proof.
+  intros Hin.
+  repeat (destruct Hin as [<-|Hin];
+    [unfold gen_interp_arm; simpl;
+     repeat match goal with |- context [?f ?E ?i ?d ?s ?r ?n ?x ?st ?m] =>
+       match type of f with ienv -> insn -> Z -> Z -> list Z -> Z -> Z -> list frame -> mem -> _ => unfold f end end;
+     simpl; rewrite jump_target;
+     match goal with |- exists c, (_ <- (if ?c1 then _ else _) ;; _) = _ => exists c1; destruct c1; reflexivity end|]).
+  destruct Hin.
+Qed.
 End Arms.
